@@ -90,7 +90,7 @@ def build_impl(log=None):
 COQFLAGS = ["-Q", os.path.join(COQDIR, "theories"), "EsVerif"]
 
 
-def coq_make(targets=(), timeout=3000):
+def coq_make(targets=(), timeout=3000, keep_going=False):
     """Full .vo build of the requested targets (all when empty). Returns (ok, log)."""
     with open(os.path.join(COQDIR, ".lock"), "w") as lk:
         fcntl.flock(lk, fcntl.LOCK_EX)
@@ -104,7 +104,7 @@ def coq_make(targets=(), timeout=3000):
             open(effp, "w").write(efftxt)
             subprocess.run(["coq_makefile", "-f", ".CoqProject.effective", "-o", "Makefile"], cwd=COQDIR, check=True,
                            stdout=subprocess.DEVNULL)
-        cmd = ["timeout", str(timeout), "make", "-j", str(NCPU)] + list(targets)
+        cmd = ["timeout", str(timeout), "make", "-j", str(NCPU)] + (["-k"] if keep_going else []) + list(targets)
         r = subprocess.run(cmd, cwd=COQDIR, stdout=subprocess.PIPE, stderr=subprocess.STDOUT, text=True)
     return r.returncode == 0, r.stdout
 
